@@ -98,7 +98,8 @@ impl<S: PageSize> Add<u64> for PhysFrame<S> {
     type Output = Self;
     #[inline]
     fn add(self, rhs: u64) -> Self::Output {
-        PhysFrame::containing_address(self.start_address() + rhs * S::SIZE)
+        let offset = rhs.checked_mul(S::SIZE).expect("attempt to multiply with overflow");
+        PhysFrame::containing_address(self.start_address() + offset)
     }
 }
 
@@ -113,7 +114,8 @@ impl<S: PageSize> Sub<u64> for PhysFrame<S> {
     type Output = Self;
     #[inline]
     fn sub(self, rhs: u64) -> Self::Output {
-        PhysFrame::containing_address(self.start_address() - rhs * S::SIZE)
+        let offset = rhs.checked_mul(S::SIZE).expect("attempt to multiply with overflow");
+        PhysFrame::containing_address(self.start_address() - offset)
     }
 }
 
